@@ -192,12 +192,24 @@ pp_twprge_ocr_scrub = re.compile(
     # Otherwise, we are liable to have some aliquots break out T&R
     # capturing, and vice-versa.
     
-    (R[ange]{0,6})?         # The word or symbol "Range" (optional).
-    [\.\-–—,\s]*            # Deadspace between "Range" and rgenum.
-    
-    # rgenum, but capturing some OCR non-numeric letters / symbols.
-    (?P<rgenum>[0-9SOIl\]\|]{2,3}|[013-9SOIl\]\|]) # (Note that singular '2' not allowed).
-    
+    ((
+        (R[ange]{0,6})?         # The word or symbol "Range" (optional).
+        [\.\-–—,\s]*            # Deadspace between "Range" and rgenum.
+
+        # rgenum, but capturing some OCR non-numeric letters / symbols.
+        (?P<rgenum>[0-9SOIl\]\|]{2,3}|[013-9SOIl\]\|]) # (Note that singular '2' not allowed).
+    )
+
+    |
+
+    (
+        # Edge case "Range 2" (as in `twprge_regex`): singular rgenum '2'
+        # is allowed where 'R' (or 'Range') is written before it.
+        (R[ange]{0,6})          # The word or symbol "Range" (required).
+        [\.\-–—,\s]*            # Deadspace between "Range" and rgenum.
+        (?P<rgenum_edgecase_rge2>2)    # rgenum (edge case).
+    ))
+
     [\.\-–—,\s]*            # Deadspace between rgenum and e/w. 
     (?P<ew>W[est]{0,3}|E[ast]{0,3})     # e/w (required).
     """,
